@@ -8,6 +8,8 @@ CONSTANTS
   FixUnpad = FALSE
   FixProto = FALSE
   FixShardLens = FALSE
+  MaxSession = 3
+  RecordOnlyAccepted = TRUE
 INIT MBTInit
 NEXT MBTNext
 CHECK_DEADLOCK FALSE
